@@ -17,6 +17,8 @@ EXPLANATION = ('RACE-RANGE (8 regions x calls), DS-INITSEL, SPEC-DSCONST (16), D
          ' X86-SS-HSEM.'
          ' RVV-TPL-REINIT.')
 
+EXPLANATION += ' RVV-SS-HSEM (the vector dataset-initialisation generator computes the SuperscalarHash instruction semantics lane by lane).'
+
 
 def run(ctx, R):
     F = astq.Facts(ctx, 'K0')
